@@ -21,7 +21,8 @@ VERB_OFFENDERS = {
     "rename_dup": "ValueError", "rename_unknown": "ValueError", "group_by_hidden": "ValueError", "slice_grouped": "ValueError",
     "join_grouped": "ValueError", "join_same_origin": "ValueError", "join_backends": "TypeError", "join_suffix_dup": "ValueError",
     "join_on_nonbool": "DataTypeError", "join_on_agg": "FunctionTypeError", "join_full_noneq": "ValueError",
-    "join_on_unknown": "ValueError", "join_on_out_of_scope": "ValueError", "marker_in_filter": "TypeError", "mutate_agg_of_window": "FunctionTypeError",
+    "join_on_unknown": "ValueError", "join_on_out_of_scope": "ValueError", "marker_in_filter": "TypeError",
+    "filter_null": "DataTypeError", "join_same_origin_via_union": "ValueError", "mutate_agg_of_window": "FunctionTypeError",
 }
 POSITIONS = ["top", "is_null", "coalesce", "case_value", "case_cond", "ctx_filter", "ctx_arrange", "nested2"]
 CONTEXTS = ["mutate", "filter", "arrange", "summarize", "join_on"]
@@ -194,6 +195,11 @@ def c14_case(draw, tier):
             off["group_first"] = t.names()[0]
         if which in ("slice_grouped", "join_grouped"):
             off["hide_alias"] = draw(st.booleans())
+        if which == "filter_null":
+            off["null_variant"] = draw(st.integers(0, 1))
+        if which == "join_same_origin_via_union" and t.group:
+            case["mode"] = "skip"
+            return case
         if which.startswith("join"):
             off["right"] = g.source(name="rj")
     hidden_group = any(c not in {cc for _, cc in t.visible} for c in t.group)
@@ -205,6 +211,16 @@ def c14_case(draw, tier):
     case["offender"] = off
     case["_gen"] = {"skipped": g.skipped, "gen_rejects": g.gen_rejects, "classes": sorted(g.classes)}
     return case
+
+
+def kind_of(tbl):
+    return "polars" if type(tbl._ast).__name__ == "PolarsImpl" or "Polars" in type(_leaf(tbl._ast)).__name__ else "sql"
+
+
+def _leaf(nd):
+    while hasattr(nd, "child"):
+        nd = nd.child
+    return nd
 
 
 class MBuilder(build.Builder):
@@ -343,6 +359,13 @@ class C14(Check):
             return hide_and_alias(lt) >> pdt.join(right, [], "inner", suffix="_zz")
         if which == "join_same_origin":
             return tbl >> pdt.join(tbl >> pdt.filter(True), [], "inner", suffix="_zz")
+        if which == "join_same_origin_via_union":
+            # the other operand entered the left one as the *right* operand of a union
+            u2 = pdt.Table(tbl >> pdt.export(pdt.Polars()), name="copy") if kind_of(tbl) == "polars" else tbl >> pdt.alias("copy")
+            return tbl >> pdt.union(u2) >> pdt.join(u2, [], "inner", suffix="_zz")
+        if which == "filter_null":
+            pred = pdt.lit(None) if off.get("null_variant", 0) == 0 else pdt.when(b.expr(["fn", "is_not_null", [anyc], {}])).then(None)
+            return tbl >> pdt.filter(pred)
         if which == "join_backends":
             return tbl >> pdt.join(off["_other_table"], [], "inner", suffix="_zz")
         if which == "join_suffix_dup":
